@@ -76,7 +76,9 @@ func TestStreamIntegrityServerTCP(t *testing.T) {
 			return
 		}
 		<-rd
-		judge(rt, cd, tr, nil, echoed.Bytes(), "server-tcp", func(evs []rx.Event) string { return "  (through Server.handle over loopback TCP)\n" + describe(cd, evs) })
+		judge(rt, cd, tr, nil, echoed.Bytes(), "server-tcp", func(evs []rx.Event) string {
+			return "  (through Server.handle over loopback TCP)\n" + describe(cd, evs)
+		})
 	})
 }
 
